@@ -1207,7 +1207,18 @@ func (se *stanzaEncoder) EncodeToken(t xml.Token) error {
 		se.depth--
 	}
 
-	return se.TokenWriteFlusher.EncodeToken(t)
+	err := se.TokenWriteFlusher.EncodeToken(t)
+	if err != nil {
+		// A token that was refused (a start element without a name, an end
+		// element that does not match) has not changed the nesting depth.
+		switch t.(type) {
+		case xml.StartElement:
+			se.depth--
+		case xml.EndElement:
+			se.depth++
+		}
+	}
+	return err
 }
 
 // UpdateAddr sets the address used by the session.
